@@ -20,6 +20,12 @@ CLAIMED = {
  "C15": ("exploration", "bounded-exhaustive operand grid (integers, numeric strings, floats, every .5 tie) + proptest 64-bit operands against an exact i128 / IEEE-754 reference",
          "Every pair of the 18-value boundary grid in three spellings for the 7 binary math filters, the grid for the unary ones, all k/8 ties for ceil/floor/round; random 64-bit and double operands. Oracle: exact i128 arithmetic / bit-identical f64 results computed in the harness; overflow must be Err or a float within 4 ulp.",
          "Harness build has overflow checks on, so a wrapped result also shows as a panic; rounding of integers beyond 2^53 is not asserted.", "4.15"),
+ "C16": ("exploration", "bounded-exhaustive strings over entity/URL/HTML alphabets + proptest fragment soups against safety scans, inverses and independent reference decoders",
+         "All strings up to length 4-7 over alphabets that spell every entity, near-entity, percent escape (valid, truncated, invalid UTF-8) and tag fragment; oracles: safety scan + unescape inverse (escape), independent reference (escape_once incl. idempotence, url_decode), charset + round trip (url_encode), no complete tag + subsequence (strip_html).",
+         "Exhaustive only up to the stated lengths; the reference decoders written in the harness are trusted.", "4.16"),
+ "C17": ("exploration", "stratified enumeration of boundary timestamps x every directive x flag x width + proptest random timestamps/formats against an independent calendar and reference formatter; round-trip, ordering and parser differentials",
+         "Reference strftime built on an independent civil-from-days calendar (cross-validated against Python datetime for every day of years 1..9999) compared with the date filter on a stratified slice (quick) / dense slice (thorough) of the timestamp x format grid; print->parse->serde round trips, chronological ordering across offsets, all accepted parser syntaxes.",
+         "Flag combinations the directive documentation does not pin are exercised for crashes only; years 1..9999; now/today never generated.", "4.17"),
 }
 
 NOT_YET = {
